@@ -258,10 +258,12 @@ type contract struct {
 	steps  []mstep       // cMulti
 	topic  common.Hash   // cEmitter
 	data   []byte        // cEmitter
+	anon   bool          // cEmitter: the log carries no topic at all (LOG0)
 }
 
 // mlog is a predicted log.
 type mlog struct {
+	anon   bool // no topic (an emitter's LOG0)
 	addr   common.Address
 	topic  common.Hash
 	data   []byte
@@ -359,7 +361,7 @@ func (m *evmModel) execInner(c *contract, self, sender common.Address, static bo
 			eff.statics++
 			return false
 		}
-		eff.logs = append(eff.logs, mlog{addr: self, topic: c.topic, data: c.data})
+		eff.logs = append(eff.logs, mlog{addr: self, topic: c.topic, data: c.data, anon: c.anon})
 		return true
 	case cReverter:
 		return false
